@@ -145,9 +145,11 @@ def random_scenario(rng, weights=None, max_hosts=4, max_ops=14, env_changes=True
           'pv': rng.choice([3, 4, 4, 5, 65, 66]), 'ks': rng.choice([None, 1, 2]),
           'ps': [7, 3, rng.choice([None, 1, 2])] if rng.random() < 0.6 else None,
           'known': [], 'script': [], 'ops': []}
+    if sc['ps'] is not None and rng.random() < 0.5:
+        sc['pidem'] = rng.random() < 0.5
     if rng.random() < 0.5:
         sc['known'] = [[7, rng.choice([3, 4]), rng.choice([None, 1, 2])]]
-    sc['script'] = [[rng.choice([0, 0, 3, 3, 1, 2]), rng.choice([None, None, 2, 5, 8])] for _ in range(8)]
+    sc['script'] = [[rng.choice([0, 0, 3, 3, 1, 2]), rng.choice([None, None, 0, 0] + list(range(11)))] for _ in range(8)]
     return sc
 
 
